@@ -373,6 +373,8 @@ def literal_for(rng, s, n, f, radix):
         r_ = (m << 128) - hi_ * P27
         lo_ = min(P27 - 1, max(0, rng.choice([r_, r_ - 1, r_ + 1, P27 - 1, rng.randrange(r_, P27) if r_ < P27 else P27 - 1])))
         fp = '%027d%027d' % (hi_, lo_)
+        if rng.random() < 0.15:
+            fp = '9' * rng.choice([27, 28, 38, 39, 40, 53, 54, 55, 60]) + rng.choice(['', '4', '5', '6', '9'])     # rounds up to 1.0 in the two-limb path
         if rng.random() < 0.4:
             fp += ''.join(rng.choice(DIG[:10]) for _ in range(rng.randint(1, 30)))
         ip = '' if f == n else rng.choice(['', '0', '1', str(rng.randrange(0, 1 << max(0, min(n - f, 40))))])
@@ -382,6 +384,13 @@ def literal_for(rng, s, n, f, radix):
         k = abs(rand_val(rng, s, n, f, edges(s, n, f)))
         if rng.random() < 0.2:
             k = max(0, rng.choice([hi, hi - 1, -lo, -lo - 1, 0, 1, (1 << f) - 1]))
+        elif radix == 10 and f >= 3 and rng.random() < 0.15:
+            # slow-path boundary directed: fractions whose floor sits in the ulp containing .2 / .4 / .7 / .9 make the `boundary + 5` of the tie comparison
+            # wrap its word (a 5/2^N event otherwise); with a random integer part
+            num, den = rng.choice([(1, 5), (2, 5), (7, 10), (9, 10)])
+            kf = ((1 << f) * num) // den + rng.choice([-1, 0, 0, 0, 1])
+            ki = rng.randrange(0, 1 << min(n - f, 20)) if n > f else 0
+            k = min(max(hi, -lo), (ki << f) + max(0, min((1 << f) - 1, kf)))
         ip, fp = expand(2 * k + 1, f + 1, radix)
         v = rng.random()
         if v < 0.25:
